@@ -111,18 +111,39 @@ func runC12(c *Ctx) {
 		fn := cs.Parent()
 		c.Anchor("C12.2", fname(fn)+"@"+anchorOrd(c, "C12.2", fname(fn)))
 		pos := w.instrPos(cs)
-		fc, fi := callOf(cs.Common().Args[0])
-		if fc == nil || fc.Call.StaticCallee() != find || fi != 0 {
+		// the receiver may come out of a helper that does the find+delete (then the helper's
+		// returns that can produce it on this path are what the Delete must dominate)
+		recv, hrets, _ := w.originAt(cs.Common().Args[0], cs)
+		fcv, fi := callOf(recv)
+		if fcv == nil || fcv.Call.StaticCallee() != find || fi != 0 {
 			c.Bad("C12.2", fname(fn), "WriteResult", pos, "the transaction completed here was not obtained from trMap.Find in this function: "+w.desc(cs.Common().Args[0]))
 			continue
 		}
+		fc, _ := w.realOf(fcv).(*ssa.Call)
+		if fc == nil {
+			c.Bad("C12.2", fname(fn), "WriteResult", pos, "the transaction completed here was not obtained from trMap.Find in this function: "+w.desc(cs.Common().Args[0]))
+			continue
+		}
+		hfn := fc.Parent()
 		var dcall *ssa.Call
-		w.eachInstr(fn, func(in ssa.Instruction) {
+		w.eachInstr(hfn, func(in ssa.Instruction) {
 			call, ok := in.(*ssa.Call)
 			if !ok || call.Call.StaticCallee() != del || !w.sameKey(call.Call.Args[1], fc.Call.Args[1]) {
 				return
 			}
-			if call.Block() == cs.Block() && indexIn(call) < indexIn(cs) || call.Block() != cs.Block() && call.Block().Dominates(cs.Block()) {
+			if hfn == fn {
+				if instrDominates(call, cs) {
+					dcall = call
+				}
+				return
+			}
+			all := len(hrets) > 0
+			for _, r := range hrets {
+				if !instrDominates(call, r) {
+					all = false
+				}
+			}
+			if all {
 				dcall = call
 			}
 		})
@@ -133,7 +154,7 @@ func runC12(c *Ctx) {
 		heldF := holds(li.mustAt(fc), lockTr, true)
 		heldD := holds(li.mustAt(dcall), lockTr, true)
 		unlocked := ""
-		w.eachInstr(fn, func(in ssa.Instruction) {
+		w.eachInstr(hfn, func(in ssa.Instruction) {
 			if call, ok := in.(*ssa.Call); ok {
 				if lo := w.lockOpOf(&call.Call); lo != nil && lo.class == lockTr && lo.op == "Unlock" && instrReaches(fc, in) && instrReaches(in, dcall) {
 					unlocked = w.instrPos(in)
@@ -308,13 +329,53 @@ func runC12(c *Ctx) {
 		} else {
 			c.Bad("C12.5", fname(onRtx), "give-up count", w.pos(onRtx.Pos()), fmt.Sprintf("the transaction gives up at nRtx == %d, not 7", k))
 		}
-		if len(startRtx.AnonFuncs) != 1 {
+		var cl *ssa.Function
+		nArm := 0
+		w.eachInstr(startRtx, func(in ssa.Instruction) {
+			if call, ok := in.(*ssa.Call); ok && call.Call.StaticCallee() == timeAfterFunc(w) {
+				nArm++
+				if mc, isMC := call.Call.Args[1].(*ssa.MakeClosure); isMC {
+					cl = w.closureBody(mc)
+				}
+			}
+		})
+		if cl == nil || nArm != 1 {
 			c.Bad("C12.5", fname(startRtx), "timer closure", w.pos(startRtx.Pos()), "expected one timer closure in StartRtxTimer")
 		} else {
-			cl := startRtx.AnonFuncs[0]
 			okInc, okDouble, okCap, okArm := false, false, false, false
 			doubleWhy := "no store of interval*2"
-			w.eachInstr(cl, func(in ssa.Instruction) {
+			isDoubled := func(v ssa.Value) bool {
+				bo, ok := v.(*ssa.BinOp)
+				if !ok || bo.Op != token.MUL {
+					return false
+				}
+				for _, p := range [][2]ssa.Value{{bo.X, bo.Y}, {bo.Y, bo.X}} {
+					if kk, isK := constInt(p[1]); isK && kk == 2 {
+						if _, f, isL := fieldLoad(w.resolveLoad(p[0])); isL && f.Name() == "interval" {
+							return true
+						}
+					}
+				}
+				return false
+			}
+			isCap := func(v ssa.Value) bool {
+				kk, isK := constInt(v)
+				return isK && kk == int64(1600e6)
+			}
+			unconditional := func(in ssa.Instruction) bool {
+				for _, f := range w.factsAt(in) {
+					for _, side := range []ssa.Value{f.X, f.Y} {
+						if side == nil {
+							continue
+						}
+						if _, ff, isL := fieldLoad(under(side)); isL && ff.Name() == "interval" {
+							return false
+						}
+					}
+				}
+				return true
+			}
+			w.eachInstrDeep(cl, func(in ssa.Instruction) {
 				st, ok := in.(*ssa.Store)
 				if !ok {
 					return
@@ -333,33 +394,53 @@ func runC12(c *Ctx) {
 						}
 					}
 				case "interval":
-					if bo, ok := st.Val.(*ssa.BinOp); ok && bo.Op == token.MUL {
-						if kk, isK := constInt(bo.Y); isK && kk == 2 {
-							// unconditional: no fact about the interval at this store
-							cond := false
-							for _, f := range w.factsAt(in) {
-								for _, side := range []ssa.Value{f.X, f.Y} {
-									if side == nil {
-										continue
-									}
-									if _, ff, isL := fieldLoad(side); isL && ff.Name() == "interval" {
-										cond = true
+					val := w.resolveLoad(st.Val)
+					switch {
+					case isDoubled(val):
+						// form 1: interval *= 2; if interval > cap { interval = cap }
+						if unconditional(in) {
+							okDouble = true
+						} else {
+							doubleWhy = "the doubling at " + w.instrPos(in) + " is conditional on the interval itself: intervals that do not land exactly on the cap overshoot it (e.g. RTO 1 s → 2 s > 1.6 s)"
+						}
+					case isCap(val):
+						for _, f := range w.factsAt(in) {
+							if f.Op == "<" && f.Truth { // cap < interval
+								if isCap(f.X) {
+									if _, ff, isL := fieldLoad(f.Y); isL && ff.Name() == "interval" {
+										okCap = true
 									}
 								}
 							}
-							if cond {
-								doubleWhy = "the doubling at " + w.instrPos(in) + " is conditional on the interval itself: intervals that do not land exactly on the cap overshoot it (e.g. RTO 1 s → 2 s > 1.6 s)"
-							} else {
-								okDouble = true
+						}
+					default:
+						// form 2: interval = min(interval*2, cap)
+						if mc, ok := val.(*ssa.Call); ok {
+							if b, isB := mc.Call.Value.(*ssa.Builtin); isB && b.Name() == "min" && len(mc.Call.Args) == 2 {
+								a0, a1 := w.resolveLoad(mc.Call.Args[0]), w.resolveLoad(mc.Call.Args[1])
+								if (isDoubled(a0) && isCap(a1) || isDoubled(a1) && isCap(a0)) && unconditional(in) {
+									okDouble, okCap = true, true
+								}
 							}
 						}
-					}
-					if kk, isK := constInt(st.Val); isK && kk == int64(1600e6) {
-						for _, f := range w.factsAt(in) {
-							if f.Op == "<" && f.Truth { // cap < interval
-								if c2, isC := constInt(f.X); isC && c2 == int64(1600e6) {
-									if _, ff, isL := fieldLoad(f.Y); isL && ff.Name() == "interval" {
-										okCap = true
+						// form 3: v := interval*2; if v > cap { v = cap }; interval = v
+						if ph, ok := val.(*ssa.Phi); ok && len(ph.Edges) == 2 && unconditional(in) {
+							for i := 0; i < 2; i++ {
+								d, k := w.resolveLoad(ph.Edges[i]), w.resolveLoad(ph.Edges[1-i])
+								if !isDoubled(d) || !isCap(k) {
+									continue
+								}
+								pred := ph.Block().Preds[1-i]
+								var pf []Fact
+								if len(pred.Instrs) > 0 {
+									pf = append(pf, w.factsAt(pred.Instrs[0])...)
+								}
+								if len(pred.Preds) == 1 {
+									pf = append(pf, edgeFacts(pred.Preds[0], pred)...)
+								}
+								for _, f := range pf {
+									if f.Op == "<" && f.Truth && isCap(f.X) && f.Y == d {
+										okDouble, okCap = true, true
 									}
 								}
 							}
